@@ -19,7 +19,8 @@ LANGS = ["python", "javascript", "typescript", "java", "go", "c", "php"]
 BATCH = 30
 SWITCHES = ["args-column", "go-return-operation", "array-read-receiver-object-column", "go-struct-type-decl",
             "while-condition-prebody", "array-literal-elements-as-fields", "declaration-after-first-assignment",
-            "while-continue-recompute", "expression-stmt-rows", "redeclaration-of-visible-variable"]
+            "while-continue-recompute", "expression-stmt-rows", "redeclaration-of-visible-variable",
+            "php-property-initialiser-as-local-assignment"]
 
 
 def norm(v):
